@@ -88,4 +88,39 @@ theorem foldlM_add_dir (pre ops : List Flags) (a b : Acc) (ha : a.outDir = dirAf
             simp only [Bool.and_eq_true, bne_iff_ne, ne_eq, not_and, Decidable.not_not] at h2
             exact h2 hin
 
+/-- converse: a sequence compatible with its prefix is folded without error -/
+theorem foldlM_add_some (pre ops : List Flags) (a : Acc) (ha : a.outDir = dirAfter pre)
+    (hc : Compatible pre ops) : ∃ b, ops.foldlM add a = some b := by
+  induction ops generalizing pre a with
+  | nil => exact ⟨a, by simp [List.foldlM]⟩
+  | cons f rest ih =>
+    obtain ⟨h1, h2, h3⟩ := hc
+    simp only [List.foldlM_cons]
+    have hadd : ∃ a', add a f = some a' := by
+      unfold add
+      have c1 : (f.graphSnapshot && a.outDir == .undefined) = false := by
+        cases hs : f.graphSnapshot
+        · simp
+        · have := h1 hs; rw [← ha] at this; simp [this]
+      have c2 : (f.inDir != .undefined && f.inDir != a.outDir) = false := by
+        by_cases hin : f.inDir = .undefined
+        · simp [hin]
+        · have := h2 hin; rw [← ha] at this; simp [this]
+      simp [c1, c2]
+    obtain ⟨a', ha'⟩ := hadd
+    have hd : a'.outDir = dirAfter (pre ++ [f]) := by
+      have := (foldlM_add_dir pre [f] a a' ha (by simp [List.foldlM, ha'])).1
+      simpa using this
+    obtain ⟨b, hb⟩ := ih (pre ++ [f]) a' hd h3
+    exact ⟨b, by simp [ha', hb]⟩
+
+/-- **accepts_iff** for the folding part: the operators are accepted one after the other iff every
+operator is compatible with the direction produced before it and every graph snapshot follows a
+router. (The constructor then additionally requires `graphUpdated` and a defined direction.) -/
+theorem fold_accepts_iff (ops : List Flags) :
+    (∃ b, ops.foldlM add ({} : Acc) = some b) ↔ Compatible [] ops := by
+  constructor
+  · rintro ⟨b, hb⟩; exact (foldlM_add_dir [] ops {} b rfl hb).2
+  · intro hc; exact foldlM_add_some [] ops {} rfl hc
+
 end Proto.OpSeq
